@@ -145,16 +145,30 @@ where
 
 end JsonText
 
-/-- `serde_json::from_str` as far as the JSON value goes -/
-def parseJsonText (s : String) : Option JVal :=
-  match JsonText.value 128 s.toList with
-  | some (v, rest) => if (JsonText.skipWs rest).isEmpty then some v else none
-  | none => none
-
 partial def jvalDepth : JVal → Nat
   | .arr items => 1 + (items.map jvalDepth).foldl max 0
   | .obj fields => 1 + (fields.map (fun p => jvalDepth p.2)).foldl max 0
   | _ => 0
+
+/-- `serde_json::from_str` as far as the JSON value goes (no limit on the nesting) -/
+def parseJsonText (s : String) : Option JVal :=
+  match JsonText.value 1000000 s.toList with
+  | some (v, rest) => if (JsonText.skipWs rest).isEmpty then some v else none
+  | none => none
+
+/-- the same, refusing values nested deeper than 100.  `serde_json` limits the recursion of what it *deserialises* to 128
+    levels but skips ignored values without a limit; the model does not describe that: when the two readers lead to
+    different answers the driver says UNDEF. -/
+def parseJsonTextShallow (s : String) : Option JVal :=
+  match parseJsonText s with
+  | some v => if jvalDepth v > 100 then none else some v
+  | none => none
+
+def outcomeKey (o : Outcome Filter) : String :=
+  match o with
+  | .ok f => "OK " ++ render (toJson f)
+  | .err => "ERR"
+  | .undef => "UNDEF"
 
 def hexOfBytes (bs : List UInt8) : String :=
   String.ofList (bs.flatMap fun b => [hexDigit (b.toNat / 16), hexDigit (b.toNat % 16)])
@@ -186,10 +200,12 @@ def opFdef (j : Json) : R Json := do
     | some o => int o
     | none => pure 0
   let force ← optStr j "force"
-  let res : Outcome Filter := match force with
-    | some "armor" => fromArmor parseJsonText defText
-    | some "json" => fromJsonStr parseJsonText defText
-    | _ => parseDefinition parseJsonText defText
+  let run (P : String → Option JVal) : Outcome Filter := match force with
+    | some "armor" => fromArmor P defText
+    | some "json" => fromJsonStr P defText
+    | _ => parseDefinition P defText
+  let res : Outcome Filter :=
+    if outcomeKey (run parseJsonText) == outcomeKey (run parseJsonTextShallow) then run parseJsonText else .undef
   match res with
   | .err => pure (Json.mkObj [("r", "ERR"), ("armored", .bool (isArmored defText))])
   | .undef => pure (Json.mkObj [("r", "UNDEF")])
